@@ -44,6 +44,7 @@ structure Lits (α : Type) where
   ten : α           -- 10.0
   p03 : α           -- 0.03
   em6 : α           -- 1e-6
+  stretch : α       -- 1.01 (last-step stretch)
 
 structure Params (α : Type) where
   xend : α
@@ -189,7 +190,7 @@ def accepted (L : Lits α) (P : Params α) (s : State α) (o : PassOracle α) (h
         { s with x := x, first := false, reject := false, singular := 0, theta := theta, thqold := thqold, dynold := dynold,
                  faccon := faccon, hAcc := hAcc, errAcc := errAcc, cnt := cnt, last := last }
       -- "Sophisticated step size control"
-      if (x + hnew / L.quot1 - P.xend) * P.posneg ≥ L.zero then
+      if (x + L.stretch * hnew / L.quot1 - P.xend) * P.posneg ≥ L.zero then
         { base with h := P.xend - x, last := true, hhfac := P.xend - x, callDecomp := true, callJac := decide (theta ≥ L.thet) } |> .inl
       else
         let qt := hnew / h
@@ -286,7 +287,7 @@ def start (L : Lits α) (S : Setup α) : Sum (State α) (Result α) :=
   let P := params L S
   let h0 := match S.firstStep with | some h0 => Num.abs h0 * P.posneg | none => L.em6 * P.posneg
   let h1 := clamp h0 (-P.hmax) P.hmax
-  let lands := decide ((S.x0 + h1 - S.xend) * P.posneg ≥ L.zero)
+  let lands := decide ((S.x0 + L.stretch * h1 - S.xend) * P.posneg ≥ L.zero)
   let h := if lands then S.xend - S.x0 else h1
   let cnt : Counters := { ode := 1 }
   match S.cb0 with
